@@ -92,6 +92,20 @@ func finExpr(v ssa.Value, prm ssa.Value, x int64, taken map[*ssa.BasicBlock]int,
 				return constant.MakeInt64(r), true
 			}
 		}
+		// a method that returns the same constant on every path (Size() of a fixed-size structure)
+		if f := e.Common().StaticCallee(); f != nil && len(f.Blocks) > 0 && f.Signature.Results().Len() == 1 {
+			val, has := int64(0), false
+			for _, r := range returnsOf(f) {
+				k, ok := constInt(r.Results[0])
+				if !ok || (has && k != val) {
+					return nil, false
+				}
+				val, has = k, true
+			}
+			if has {
+				return constant.MakeInt64(val), true
+			}
+		}
 		return nil, false
 	case *ssa.UnOp:
 		in, ok := finExpr(e.X, prm, x, taken, depth+1)
